@@ -9,7 +9,8 @@ import coqlit as L
 
 ID = "C08"
 COQ_PROPERTY_FILE = "Properties/C08.v"
-COQ_DEPS = ["Common/ListX.v", "Common/ObsHash.v", "Generated/Tables.v", "Model/LegacyGrid.v", "Proofs/LegacyGridProofs.v"]
+COQ_DEPS = ["Common/ListX.v", "Common/ObsHash.v", "Generated/Tables.v", "Model/LegacyGrid.v", "Proofs/LegacyGridProofs.v",
+            "Proofs/LegacyGridSim.v"]
 COQ_IMPORTS = "From Mesa Require Import Model.LegacyGrid."
 COQ_CASE_TYPE = "case"
 COQ_RUN = "run_case"
